@@ -627,6 +627,11 @@ func (r *Reader) RefsFor(oid []byte) (*Iterator, error) {
 }
 
 func (r *Reader) refsForIndexed(oid []byte) (*Iterator, error) {
+	if len(oid) < r.objectIDLen {
+		// The prefix length comes from the footer; an object id
+		// shorter than that cannot be in the index.
+		return &Iterator{&emptyIterator{}}, nil
+	}
 	want := &objRecord{HashPrefix: oid[:r.objectIDLen]}
 
 	it, err := r.seek(want)
